@@ -501,6 +501,29 @@ pub fn check(case: &Case, _tier: Tier) -> Outcome {
   }
   let mut urls: BTreeSet<Url> = graph.specifiers().map(|(s, _)| s.clone()).collect();
   urls.extend(graph.redirects.values().cloned());
+  // look-alikes of every package file: another host, another scheme, the
+  // registry host as a prefix of the host, the package path under a prefix,
+  // a version spelled otherwise, the bare version directory
+  for p in &case.registry.packages {
+    for v in &p.versions {
+      for path in v.files.keys().take(2) {
+        for look_alike in [
+          format!("https://h.test/{}/{}{path}", p.name, v.version),
+          format!("http://jsr.io/{}/{}{path}", p.name, v.version),
+          format!("https://jsr.io.h.test/{}/{}{path}", p.name, v.version),
+          format!("{REGISTRY}x/{}/{}{path}", p.name, v.version),
+          format!("{REGISTRY}{}/v{}{path}", p.name, v.version),
+          format!("{REGISTRY}{}/{}.0{path}", p.name, v.version),
+          format!("{REGISTRY}{}/{}{path}", p.name.trim_start_matches('@'), v.version),
+          format!("{REGISTRY}{}/{}{path}", p.name, v.version),
+        ] {
+          if let Ok(u) = Url::parse(&look_alike) {
+            urls.insert(u);
+          }
+        }
+      }
+    }
+  }
   for u in &urls {
     let got = provider.package_url_to_nv(u).map(|nv| (nv.name.to_string(), nv.version.to_string()));
     let exp = nv_of_url(u);
